@@ -4,7 +4,7 @@
 #ifndef VERIF_MODELS_H
 #define VERIF_MODELS_H
 _Bool verif_exc_pending; void *verif_exc_obj; void *verif_exc_tinfo;
-unsigned verif_alloc_calls, verif_free_calls;
+unsigned verif_alloc_calls, verif_free_calls; int64_t verif_variant;
 #ifndef VERIF_ALLOC_MAY_FAIL
 #define VERIF_ALLOC_MAY_FAIL 0
 #endif
